@@ -1,0 +1,24 @@
+//go:build verif
+// +build verif
+
+package config
+
+import (
+	"sync/atomic"
+	"time"
+)
+
+// Net timeout overrides for the verification harness (build tag verif only):
+// the on-demand pull scenarios (C20) need a silent camera to time out in
+// milliseconds, not in 45 s.
+
+var verifNetTimeoutNs, verifNetHeartbeatNs int64
+
+// VerifSetNetTimeouts overrides NetTimeout / NetHeartbeatInterval (0 = built-in value).
+func VerifSetNetTimeouts(timeout, heartbeat time.Duration) {
+	atomic.StoreInt64(&verifNetTimeoutNs, int64(timeout))
+	atomic.StoreInt64(&verifNetHeartbeatNs, int64(heartbeat))
+}
+
+func verifNetTimeout() time.Duration   { return time.Duration(atomic.LoadInt64(&verifNetTimeoutNs)) }
+func verifNetHeartbeat() time.Duration { return time.Duration(atomic.LoadInt64(&verifNetHeartbeatNs)) }
